@@ -68,9 +68,14 @@ func (v *idTokenVerifier) verifyAudience(token *oidc.IDToken, claims map[string]
 			// as per spec `aud` can be either a string or a list of strings
 			switch audienceClaimValueType := audienceClaimValue.(type) {
 			case []interface{}:
-				token.Audience = v.interfaceSliceToString(audienceClaimValue)
-			case interface{}:
-				token.Audience = []string{audienceClaimValue.(string)}
+				audiences, err := v.interfaceSliceToString(audienceClaimValue)
+				if err != nil {
+					return false, fmt.Errorf("audience claim %s holds unsupported value: %v",
+						audienceClaim, err)
+				}
+				token.Audience = audiences
+			case string:
+				token.Audience = []string{audienceClaimValueType}
 			default:
 				return false, fmt.Errorf("audience claim %s holds unsupported type %T",
 					audienceClaim, audienceClaimValueType)
@@ -96,14 +101,18 @@ func (v *idTokenVerifier) isValidAudience(claim string, audience []string, allow
 		claim, audience, allowedAudiences)
 }
 
-func (v *idTokenVerifier) interfaceSliceToString(slice interface{}) []string {
+func (v *idTokenVerifier) interfaceSliceToString(slice interface{}) ([]string, error) {
 	s := reflect.ValueOf(slice)
 	if s.Kind() != reflect.Slice {
-		panic(fmt.Sprintf("given a non-slice type %s", s.Kind()))
+		return nil, fmt.Errorf("given a non-slice type %s", s.Kind())
 	}
 	var strings []string
 	for i := 0; i < s.Len(); i++ {
-		strings = append(strings, s.Index(i).Interface().(string))
+		str, ok := s.Index(i).Interface().(string)
+		if !ok {
+			return nil, fmt.Errorf("element %d has type %T, not string", i, s.Index(i).Interface())
+		}
+		strings = append(strings, str)
 	}
-	return strings
+	return strings, nil
 }
